@@ -159,7 +159,13 @@ def add_occupancy(rnd, spec, info, force=None, ei=0):
                 st.append("uniform_shape(%d)" % rnd.randint(2, 6))
                 tags.append("occ-beneath-shape")
             leader = rnd.choice(holders[r])
+            vary = rnd.random() < 0.5
             for i in range(nocc):
+                if vary and i > 0:
+                    l2 = rnd.choice(holders[r])
+                    if l2 != leader:
+                        tags.append("occ-leader-per-level")
+                    leader = l2
                 sz = rnd.randint(1, 5)
                 if rnd.random() < 0.15:
                     nm = "%s%dSZ" % (r, i)
@@ -202,7 +208,8 @@ def add_flatten(rnd, spec, info, force=None, ei=0):
     fr = rnd.sample(tr, k)
     # the output may hold at most one flattened rank (two crash the compiler)
     outs = [r for r in fr if r in s.decl[out]]
-    if len(outs) > 1:
+    many_out = len(outs) > 1 and rnd.random() < 0.35
+    if len(outs) > 1 and not many_out:
         keep = outs[0]
         fr = [r for r in fr if r not in outs or r == keep]
         extra = [r for r in tr if r not in fr and r not in s.decl[out]]
@@ -211,6 +218,8 @@ def add_flatten(rnd, spec, info, force=None, ei=0):
         if len(fr) < 2:
             return None
     parts, tags = {}, ["flatten"]
+    if many_out:
+        tags.append("flatten-several-output-ranks")
     ranks = list(info["ranks"])
     groups = []
     flat_members = list(fr)
